@@ -18,7 +18,7 @@ From Coq Require Import NArith List Bool.
 Import ListNotations.
 From HV Require Import lib.Harness model.Validity model.Builder spec.BuilderS proofs.BuilderP proofs.BuilderExtP
   spec.BuilderWFS proofs.BuilderFrameP proofs.BuilderRulesP proofs.BuilderTypeP
-  proofs.BuilderAcyclicP.
+  proofs.BuilderAcyclicP proofs.BuilderNonLocalP.
 
 (* Proved for ALL programs of the modelled language, with no well-formedness premise: whenever the
    builder calls do not raise, the serialised document satisfies
@@ -88,6 +88,28 @@ Theorem C01_backward_order_refuted : ord_prog ex_cyclic = false /\ wt_prog ex_ty
   exists g, run ex_tys ex_cyclic = Ok g /\ r_acyclic g = false.
 Proof. exact ex_cyclic_refuted. Qed.
 Print Assumptions C01_backward_order_refuted.
+
+(* Second pass.  The bridge from the store-level ExtOrder (above) to the document-level booleans, for ALL programs
+   of the modelled language (no well-formedness premise): the validator's ancestor walk (`walk`, on fuel, with the
+   resolved order-port offsets of the serialised document) classifies every edge of the document as local, as a
+   good non-local edge, or as non-copyable; hence
+     r_ext_order_edge (rule 14)    : every value edge entering a nested region has its order edge;
+     r_nonlocal_relation (rule 12) : every non-local edge is an Ext edge / a static edge from an enclosing region;
+     r_dominance (rule 15)         : no edge is a Dom edge (vacuous: no CFG in the modelled language).
+   Rule 11 (non-local edges carry copyable values only) is NOT claimed: it needs a premise on the program. *)
+Theorem C01_builder_nonlocal_edges : forall tys p g,
+  run tys p = Ok g ->
+  r_nonlocal_relation tys g = true /\ r_ext_order_edge tys g = true /\ r_dominance tys g = true.
+Proof. exact run_nonlocal. Qed.
+Print Assumptions C01_builder_nonlocal_edges.
+
+(* non-vacuity: a program whose document has a good non-local value edge and a good non-local static edge *)
+Theorem C01_nonlocal_example : exists g, run ex3_tys ex3_prog = Ok g /\
+  valid {| v_tys := ex3_tys; v_main := g; v_subs := [] |} = true /\
+  existsb (fun r => ecode_eqb (classify ex3_tys g (redges g) r) EOk && negb (is_static (r_kind r))) (redges g) = true /\
+  existsb (fun r => ecode_eqb (classify ex3_tys g (redges g) r) EOk && is_static (r_kind r)) (redges g) = true.
+Proof. exact ex3_nonlocal. Qed.
+Print Assumptions C01_nonlocal_example.
 
 (* the premises are satisfiable by a non-trivial program: constant at the root, nested region with an Ext wire,
    MakeTuple / UnpackTuple / Noop, Tag, fixed-signature op, linear value, explicit order edge; 13 nodes *)
